@@ -508,6 +508,23 @@ func (s *Server) GetHandler(cmdName string,
 	if !ok {
 		return nil, cmd, common.ErrInvalidCommand
 	}
+	if cmdName == "mget" {
+		// the command is handled by the partition of the first key, a key in another
+		// partition would be answered as not exist, so we must refuse it
+		for _, k := range cmd.Args[1:] {
+			ns, pk, err := common.ExtractNamesapce(k)
+			if err != nil {
+				return nil, cmd, err
+			}
+			n, err := s.nsMgr.GetNamespaceNodeWithPrimaryKey(ns, pk)
+			if err != nil {
+				return nil, cmd, err
+			}
+			if n.Node != kvn {
+				return nil, cmd, errKeysNotInSamePartition
+			}
+		}
+	}
 	if !kvn.IsLead() && (atomic.LoadInt32(&allowStaleRead) == 0) && !isAllowStaleReadCmd(cmdName) {
 		// read only to leader to avoid stale read
 		return nil, cmd, node.ErrNamespaceNotLeader
